@@ -62,6 +62,30 @@ print(line)
 out.insert(7, line + '.')
 out.insert(8, '')
 open(os.path.join(HERE, 'seeded', 'RESULTS.md'), 'w').write('\n'.join(out) + '\n')
+# compact table for DESIGN.md section 10.5 (between the markers)
+def _natural(name):
+    a, b = name.split('-')
+    return (a, int(b))
+
+
+compact = ['| seed | change (from the seeding agent\'s summary) | caught by | first finding key |', '|---|---|---|---|']
+for r in sorted(rows, key=lambda r: _natural(r['name'])):
+    by = ', '.join(c.split(' ')[0] for c in r['caught'])
+    if r['own']:
+        cell = '**%s**' % r['prop'] + (' (also %s)' % ', '.join(c.split(' ')[0] for c in r['caught'] if not c.startswith(r['prop'])) if len(r['caught']) > 1 else '')
+    elif r['caught']:
+        cell = '%s (see note)' % by
+    else:
+        cell = '**missed** (see note)'
+    compact.append('| %s | %s | %s | %s |' % (r['name'], r['summary'][:150].replace('|', '/'), cell,
+                                              '`%s`' % r['keys'][0][:70].replace('|', '/') if r['keys'] else ''))
+dp = os.path.join(HERE, 'DESIGN.md')
+d = open(dp).read()
+B, E = '<!-- SEEDTABLE BEGIN -->', '<!-- SEEDTABLE END -->'
+if B in d and E in d:
+    d = d[:d.index(B) + len(B)] + '\n' + '\n'.join(compact) + '\n' + d[d.index(E):]
+    open(dp, 'w').write(d)
+    print('DESIGN.md table updated (%d rows)' % len(rows))
 for r in rows:
     if not r['own']:
         print('  not own:', r['name'], 'caught', r['caught'], 'missed', r['missed'], r['note'])
